@@ -1090,4 +1090,24 @@ theorem inNet_of_matches6 (base p a : Nat) (hp16 : p % 16 = 0) (hp1 : 16 ≤ p) 
   rw [hfxlen] at this
   exact inNet_of_hextets n hn8 base a hb ha this
 
+
+/-! ## The parametrised expansions at the standard constants are the modelled ones -/
+
+theorem joinSep_dot (l : List Str) : joinSep '.' l = joinDot l := by
+  induction l with
+  | nil => rfl
+  | cons x xs ih =>
+    cases xs with
+    | nil => rfl
+    | cons y ys => simp only [joinSep, joinDot]; rw [ih]
+
+theorem expand4S_std (base p : Nat) : expand4S Shape4.std base p = expand4 base p := by
+  simp only [expand4S, expand4, Shape4.std, joinSep_dot]
+
+theorem matches4S_std (base p a : Nat) : matches4S Shape4.std base p a = matches4 base p a := by
+  simp only [matches4S, matches4, expand4S_std]
+
+theorem expand6By_std (base p : Nat) : expand6By Shape6.std base p = expand6 base p := by
+  simp only [expand6By, expand6, Shape6.std]
+
 end SigmaVerif.Cidr
